@@ -29,7 +29,7 @@ func init() {
 	for _, w := range c13Workloads {
 		floor = append(floor, "workload."+w)
 	}
-	floor = append(floor, "shared.where", "shared.subquery", "shared.exists", "shared.in-subquery", "shared.order", "shared.group", "shared.distinct", "shared.marker-between", "shared.cte-wrapped", "par.join", "par.join-fail", "par.async", "par.spinasync", "par.await-async", "par.async-deep", "par.join-like", "par.join-stateful", "par.join-panic", "workload.cold-start", "reexec.results-reused", "cached.open-range", "reader.fn-spelling")
+	floor = append(floor, "shared.where", "shared.subquery", "shared.exists", "shared.in-subquery", "shared.order", "shared.group", "shared.distinct", "shared.marker-between", "shared.cte-wrapped", "shared.cte-path", "shared.join-unaliased", "par.join", "par.join-fail", "par.async", "par.spinasync", "par.await-async", "par.async-deep", "par.join-like", "par.join-stateful", "par.join-panic", "workload.cold-start", "reexec.results-reused", "cached.open-range", "reader.fn-spelling")
 	fw.Register(&fw.Prop{
 		ID:    "C13",
 		Title: "Concurrent queries are free of data races, crashes and cross-talk",
@@ -120,6 +120,14 @@ var c13Shared = []struct{ feat, sql string }{
 	{"shared.marker-between", "SELECT rid, (SELECT un1 FROM `<-u1` WHERE un1 BETWEEN `<-n2` AND `<-n1` OR un1 IN (`<-n1`, `<-n2`)) AS s FROM t1"},
 	{"shared.cte-wrapped", "WITH c1 AS (SELECT rid, n1 FROM `root.t1` WHERE n1 >= 0) SELECT * FROM c1 WHERE rid >= 0"},
 	{"shared.cte-wrapped", "WITH c1 AS (SELECT rid, n1 FROM `root.t1`), c2 AS (SELECT rid FROM c1 WHERE n1 > 0) SELECT * FROM c2"},
+	// outer joins whose preserved side is read straight from the shared document, without an alias
+	{"shared.join-unaliased", "SELECT * FROM t1 LEFT JOIN u1 y ON n1 = y.un1 AND y.us1 = 'no such'"},
+	{"shared.join-unaliased", "SELECT * FROM u1 x RIGHT JOIN t1 ON x.un1 = n1"},
+	{"shared.join-unaliased", "SELECT * FROM t1 LEFT JOIN u1 y ON n1 > y.un1"},
+	// "direct selection from CTEs": a selector that goes on past the name of a CTE that has not been read yet
+	{"shared.cte-path", "WITH c1 AS (SELECT rid, obj, arr FROM t1) SELECT k, w FROM `c1.obj`"},
+	{"shared.cte-path", "WITH c1 AS (SELECT rid, obj, arr FROM t1) SELECT e FROM `mix=>c1.arr` WHERE e >= 0"},
+	{"shared.cte-path", "WITH c1 AS (SELECT rid, obj FROM t1), c2 AS (SELECT k FROM `c1.obj`) SELECT k FROM c2"},
 }
 
 func c13Run(c *fw.Case) { c13RunW(c, c13Workloads[c.Idx%len(c13Workloads)]) }
